@@ -1258,3 +1258,88 @@ func c07FromDomainALabels(c *Check, rule string) {
 		c.Hold(rule, "Verifier.FetchRecord:domain-stays-a-label", fi.Decl.Pos(), msg == "" && n > 0, msg)
 	}
 }
+
+// c09OneKeyForConnTable: connectionForDomain looks a domain up in the delivery's connection table and, when there is
+// none, stores the new connection there. Both must use the same key: a store under another spelling (a normalised
+// copy) is never found again – every further recipient of the domain opens a new connection and overwrites the entry;
+// Body and Close see only the last one, the recipients on the others get no result (and their connections leak).
+func c09OneKeyForConnTable(c *Check, rule string) {
+	c.Rule(rule, "remote target: the delivery's connection table is read and written under one key – every index of it in connectionForDomain is the same variable, and that variable is not assigned in between", 1)
+	r := c.need(rule, remoteRel, "remoteDelivery", "connectionForDomain")
+	if r == nil {
+		return
+	}
+	info := r.Info
+	keys := map[types.Object]token.Pos{}
+	n := 0
+	bad := ""
+	ast.Inspect(r.FI.Decl.Body, func(x ast.Node) bool {
+		ix, ok := x.(*ast.IndexExpr)
+		if !ok || !isField(info, ix.X, "remoteDelivery", "connections") {
+			return true
+		}
+		n++
+		o := objOf(info, ix.Index)
+		if o == nil {
+			bad = "the table is indexed by an expression that is not a variable (" + exprStr(ix.Index) + ")"
+			return true
+		}
+		keys[o] = ix.Pos()
+		return true
+	})
+	if n == 0 {
+		c.Fail(rule, "connectionForDomain:table", r.FI.Decl.Pos(), "undecided: the connection table is not indexed here")
+		return
+	}
+	if len(keys) > 1 {
+		bad = "the table is read and written under different variables"
+	}
+	for o := range keys {
+		ast.Inspect(r.FI.Decl.Body, func(x ast.Node) bool {
+			if as, ok := x.(*ast.AssignStmt); ok {
+				for _, l := range as.Lhs {
+					if objOf(info, l) == o && as.Tok == token.ASSIGN {
+						bad = "the key variable " + o.Name() + " is assigned between the look-up and the store (line " + itoa(p0(c.P, as.Pos())) + ")"
+					}
+				}
+			}
+			return true
+		})
+	}
+	c.Hold(rule, "connectionForDomain:one-key", r.FI.Decl.Pos(), bad == "", bad+": a connection stored under another spelling of the domain is not found by the next recipient of that domain – it opens a connection of its own and overwrites the entry; the recipients on the earlier connections get no result and no message")
+}
+
+func p0(p *Prog, pos token.Pos) int { return p.Fset.Position(pos).Line }
+
+// c02StagingTruncated: the record is rewritten through a staging file that is then renamed over the old record. The
+// staging file may be a leftover of an interrupted rewrite: it is opened truncating (os.Create, or OpenFile with
+// O_TRUNC / O_EXCL) – otherwise a shorter record written over a longer leftover keeps the leftover's tail, and the
+// renamed record no longer parses: the message is skipped at every start-up from then on.
+func c02StagingTruncated(c *Check, rule string) {
+	c.Rule(rule, "updateMetadataOnDisk opens its staging file truncating (os.Create, or os.OpenFile with O_TRUNC or O_EXCL): a leftover of an interrupted rewrite cannot leave its tail behind the new record", 1)
+	r := c.need(rule, queueRel, "Queue", "updateMetadataOnDisk")
+	if r == nil {
+		return
+	}
+	info := r.Info
+	n, msg := 0, ""
+	ast.Inspect(r.FI.Decl.Body, func(x ast.Node) bool {
+		call, ok := x.(*ast.CallExpr)
+		if !ok {
+			return true
+		}
+		switch {
+		case isCall(info, call, "os.Create"):
+			n++
+		case isCall(info, call, "os.OpenFile") && len(call.Args) == 3:
+			n++
+			flags := exprStr(call.Args[1])
+			writes := strings.Contains(flags, "O_WRONLY") || strings.Contains(flags, "O_RDWR")
+			if writes && !strings.Contains(flags, "O_TRUNC") && !strings.Contains(flags, "O_EXCL") {
+				msg = "the staging file is opened for writing without O_TRUNC (" + flags + "): after an interrupted rewrite left a longer staging file behind, the next, shorter record is written over its beginning and renamed into place with the old tail still attached – the record does not parse any more, the retry fails and every later start-up skips the message"
+			}
+		}
+		return true
+	})
+	c.Hold(rule, "updateMetadataOnDisk:staging-open", r.FI.Decl.Pos(), msg == "" && n > 0, msg)
+}
